@@ -283,15 +283,6 @@ func c15Rat(n c15Val) *big.Rat {
 	panic("c15Rat of inexact")
 }
 
-// c15FloatLoose converts without refusing large integers (nearest float64).
-func c15FloatLoose(n c15Val) float64 {
-	if bi, ok := n.(*big.Int); ok {
-		f, _ := new(big.Float).SetInt(bi).Float64()
-		return f
-	}
-	return c15Float(n)
-}
-
 func c15Float(n c15Val) float64 {
 	switch n := n.(type) {
 	case float64:
@@ -320,7 +311,7 @@ func c15NumCmp(a, b c15Val) (int, bool) {
 		// exact vs inexact: "numerically" is taken mathematically; where converting
 		// the exact number to float64 first would change the answer the case is
 		// the known finding of property C09 and is not judged here
-		fa, fb := c15FloatLoose(a), c15FloatLoose(b)
+		fa, fb := c15Float(a), c15Float(b)
 		if math.IsNaN(fa) || math.IsNaN(fb) {
 			return 0, false
 		}
